@@ -105,12 +105,21 @@ func role(e paths.Event, v ssa.Value) string {
 		return role(e, x.X) + "[" + role(e, x.Index) + "]"
 	case *ssa.IndexAddr:
 		return "&" + role(e, x.X) + "[" + role(e, x.Index) + "]"
+	case *ssa.FieldAddr:
+		if _, f, ok := paths.FieldOf(x); ok {
+			return "&" + role(e, x.X) + "." + f.Name()
+		}
 	case *ssa.UnOp:
 		if g, ok := x.X.(*ssa.Global); ok && x.Op == token.MUL {
 			return "global:" + g.Name()
 		}
 		if ia, ok := x.X.(*ssa.IndexAddr); ok && x.Op == token.MUL {
 			return role(e, ia.X) + "[" + role(e, ia.Index) + "]"
+		}
+		if fa, ok := x.X.(*ssa.FieldAddr); ok && x.Op == token.MUL {
+			if _, f, ok := paths.FieldOf(fa); ok {
+				return role(e, fa.X) + "." + f.Name()
+			}
 		}
 		if x.Op == token.MUL {
 			return "*" + role(e, x.X)
@@ -201,12 +210,29 @@ type c04path struct {
 	calls   []string
 	props   []string
 	r0, r1  string
+	sets    []string
+	results []string
 	r1err   bool // error result is non-nil
 	aborted string
 }
 
 func c04Paths(c *core.Ctx, fn *ssa.Function) ([]c04path, error) {
-	ps, err := paths.Enumerate(fn, paths.Config{MaxDepth: 1})
+	// prune branches that contradict an earlier nil test of the very same value on the same path
+	decide := func(w *paths.Walker, cond ssa.Value) int {
+		subj, neq, ok := nilTest(cond)
+		if !ok {
+			return 0
+		}
+		st := nilStateOf(w.Events(), subj, w)
+		if st == nUnknown {
+			return 0
+		}
+		if (st == nNonNil) == neq {
+			return 1
+		}
+		return -1
+	}
+	ps, err := paths.Enumerate(fn, paths.Config{MaxDepth: 1, Decide: decide})
 	if err != nil {
 		return nil, err
 	}
@@ -222,6 +248,14 @@ func c04Paths(c *core.Ctx, fn *ssa.Function) ([]c04path, error) {
 				cp.props = append(cp.props, pr)
 				cp.sig = append(cp.sig, "if:"+pr)
 			case paths.EvInstr:
+				if st, ok := e.Instr.(*ssa.Store); ok {
+					if base, f, ok := paths.FieldOf(st.Addr); ok {
+						if _, isP := e.Resolve(base).(*ssa.Parameter); isP {
+							cp.sets = append(cp.sets, f.Name()+"="+role(e, st.Val))
+							cp.sig = append(cp.sig, "set:"+f.Name()+"="+role(e, st.Val))
+						}
+					}
+				}
 				if call, ok := e.Instr.(*ssa.Call); ok {
 					r := callRole(e, call)
 					if strings.HasPrefix(r, "len(") || strings.HasPrefix(r, "be32(") {
@@ -231,6 +265,9 @@ func c04Paths(c *core.Ctx, fn *ssa.Function) ([]c04path, error) {
 					cp.sig = append(cp.sig, "call:"+r)
 				}
 			}
+		}
+		for _, r := range p.Results {
+			cp.results = append(cp.results, role(last, r))
 		}
 		if len(p.Results) == 2 {
 			cp.r0, cp.r1 = role(last, p.Results[0]), role(last, p.Results[1])
